@@ -39,7 +39,7 @@ LEVEL_NOTE = ("Trusted: Coq 8.16.1 kernel incl. vm_compute; standard-library rea
               "model's fidelity to geomdl/fitting.py is sampled by the correspondence check (1e-8 tolerance on control points); chord lengths "
               "(sqrt) are inputs of the model")
 # functions of the numerical core this property rests on that are also tied by the translator (tie theorems: Proofs/GenTie*.v, restated in Props/)
-TRANSLATED = ["helpers.find_span_linear", "helpers.basis_function_one", "linalg.lu_solve", "linalg.lu_decomposition", "_linalg.doolittle", "linalg.forward_substitution", "linalg.backward_substitution", "linalg.matrix_transpose", "linalg.matrix_multiply", "fitting.compute_knot_vector", "fitting.compute_knot_vector2", "fitting.compute_params_curve", "fitting._build_coeff_matrix", "fitting.interpolate_curve", "fitting.compute_params_surface", "fitting.interpolate_surface"]
+TRANSLATED = ["helpers.find_span_linear", "helpers.basis_function_one", "linalg.lu_solve", "linalg.lu_decomposition", "_linalg.doolittle", "linalg.forward_substitution", "linalg.backward_substitution", "linalg.matrix_transpose", "linalg.matrix_multiply", "fitting.compute_knot_vector", "fitting.compute_knot_vector2", "fitting.compute_params_curve", "fitting._build_coeff_matrix", "fitting.interpolate_curve", "fitting.compute_params_surface", "fitting.interpolate_surface", "fitting.approximate_curve"]
 TECHNIQUE = "machine-checked proof in Coq over a hand-written Gallina model + model/implementation correspondence check evaluated by coqc (vm_compute) + exact Fraction oracles (exact evaluation of the fitted shape at the data parameters, normal equations)"
 
 THOROUGH = [False]
